@@ -107,3 +107,20 @@ Definition swstep (s : sw) (t : nat) : sw :=
   end.
 Definition swrun (n : nat) (sched : list nat) : sw :=
   fold_left swstep sched {| sw_lock := None; sw_threads := repeat MOut n; sw_inside := [] |}.
+
+(* ---- the same writer when the wrapped call may PANIC and the caller recovers further up ----
+   [deferred] is the shape of the source method (Gen/LockShapes: lm_bracket): true = Lock; defer Unlock; call -
+   the unlock runs when the call returns AND when a panic unwinds through the method; false = Lock; call; Unlock -
+   a panic unwinds past the Unlock.  An action is (thread, does the wrapped call end by panicking if this step
+   ends it).  The thread itself goes on either way (its caller recovered): MIn -> MOut. *)
+Definition swpstep (deferred : bool) (s : sw) (a : nat * bool) : sw :=
+  let '(t, panics) := a in
+  match nth_error (sw_threads s) t with
+  | Some MIn =>
+      {| sw_lock := if panics && negb deferred then sw_lock s else None;
+         sw_threads := upd (sw_threads s) t MOut;
+         sw_inside := remove Nat.eq_dec t (sw_inside s) |}
+  | _ => swstep s t
+  end.
+Definition swprun (deferred : bool) (n : nat) (sched : list (nat * bool)) : sw :=
+  fold_left (swpstep deferred) sched {| sw_lock := None; sw_threads := repeat MOut n; sw_inside := [] |}.
